@@ -94,6 +94,19 @@ FreshAfterResetOrCompletion ==
       LET a == Step(St, OpSeq[j]) b == Step(InitState, OpSeq[j]) IN
       a.res = b.res /\ a.src = b.src /\ a.cur = b.cur /\ (a.cur # -1 => a.buf = b.buf)
 
+(* every transition of the byte-level machine is a step of the length-only machine DefragLen.tla (same path names), *)
+(* whose BufferBound is proved for unbounded parameters with TLAPS                                                 *)
+RefinesDefragLen ==
+  CASE last.path = "Init" -> TRUE
+    [] last.path = "Reset" -> buf = <<>> /\ cur = -1
+    [] last.path \in {"NoCopy_Refuse", "NoCopy_NeedMore", "NoCopy_Parse", "First_Complete", "First_Error", "Cont_WrongType", "Cont_TooLarge"} ->
+         buf = last.prevbuf /\ cur = last.prevcur
+    [] last.path = "First_StartDefrag" -> last.prevcur = -1 /\ cur # -1
+    [] last.path = "Cont_Complete" ->
+         last.prevcur # -1 /\ cur = -1 /\ Len(buf) >= Len(last.prevbuf) /\ Len(buf) < MaxRecordData
+    [] last.path \in {"Cont_NeedMore", "Cont_Error"} ->
+         cur = last.prevcur /\ cur # -1 /\ Len(buf) >= Len(last.prevbuf) /\ Len(buf) < MaxRecordData
+
 (* one transition test per (state, operation): emitted once per distinct state *)
 OpJson(op) == [op |-> op.op, ct |-> op.ct, ver |-> op.ver, data |-> <<Lit(op.data)>>]
 EmitTransitions ==
